@@ -351,6 +351,9 @@ func enumerate(thread *Thread, _ *Builtin, args Tuple, kwargs []Tuple) (Value, e
 		for i := 0; iter.Next(&x); i++ {
 			pair := array[:2:2]
 			array = array[2:]
+			if start+i < start {
+				return nil, fmt.Errorf("enumerate: index overflows int")
+			}
 			pair[0] = MakeInt(start + i)
 			pair[1] = x
 			pairs = append(pairs, pair)
@@ -358,6 +361,9 @@ func enumerate(thread *Thread, _ *Builtin, args Tuple, kwargs []Tuple) (Value, e
 	} else {
 		// non-sequence (unknown length)
 		for i := 0; iter.Next(&x); i++ {
+			if start+i < start {
+				return nil, fmt.Errorf("enumerate: index overflows int")
+			}
 			pair := Tuple{MakeInt(start + i), x}
 			pairs = append(pairs, pair)
 		}
